@@ -15,7 +15,7 @@ PROPERTY = "C14"
 
 META = {
     "bounds": {
-        "quick": "26 structural error statements x 3 insertion positions in a 3-statement base program and 4 positions (one per block) in a program of three `*=` blocks and a relocated part x 6 entry points; the same statements inside 9 wrappers expanded at code-generation time (taken .if / else, macro body, code argument, loop body, nested blocks, named scope) x 2 entry points; 6 value-dependent statement kinds with a symbolic 24-bit value (26 bits for the `*=` operand) x 6 entry points; valid programs x 6 entry points",
+        "quick": "28 structural error statements x 3 insertion positions in a 3-statement base program and 4 positions (one per block) in a program of three `*=` blocks and a relocated part x 6 entry points; the same statements inside 9 wrappers expanded at code-generation time (taken .if / else, macro body, code argument, loop body, nested blocks, named scope) x 2 entry points; 6 value-dependent statement kinds with a symbolic 24-bit value (26 bits for the `*=` operand) x 6 entry points; valid programs x 6 entry points",
         "thorough": "same with 4 insertion positions and two base programs",
     },
     "outside": ["argparse itself and the OS process boundary (exercised concretely by --replay through `python -m a816.cli`)", "error classes not listed in the property"],
@@ -47,6 +47,9 @@ STRUCTURAL = {
     "undef-symbol-inferred": "lda nosuchsymbol",
     "undef-macro": "nosuchmacro(1)",
     "missing-macro-arg": ".macro two(a, b) {\n.db a, b\n}\ntwo(1)",
+    # ... with an unrelated symbol / label of the missing parameter's name in the enclosing scope
+    "missing-macro-arg-outer-symbol": "b = 5\n.macro two(a, b) {\n.db a, b\n}\ntwo(1)",
+    "missing-macro-arg-outer-label": "start_b:\n.macro twol(a, start) {\n.dw a, start\n}\ntwol(1)",
     # the offending argument is bound to a parameter that the body never reads / reads only in a branch not taken
     "undef-symbol-unused-macro-arg": ".macro unusedp(x) {\nnop\n}\nunusedp(nosuchsymbol)",
     "undef-symbol-unused-macro-arg-expr": ".macro unusede(x, y) {\n.db y\n}\nunusede(nosuchsymbol + 1, 2)",
